@@ -1,3 +1,916 @@
-//! C09 — not built yet.
-pub const BUILT: bool = false;
-pub fn run(_rep: &mut vx::Report) {}
+//! C09 — serialized objects parse back to the same value.
+//!
+//! Space (all enumerated, nothing sampled):
+//!  * `leaf-in-context`: every leaf of the catalogue below (null, booleans, boundary integers,
+//!    reals, every one-character string U+0000–U+00FF and all pairs over 12 special characters,
+//!    every one-character name U+0000–U+00FF + U+20AC and all pairs over 15 special characters,
+//!    every one-byte ByteString, references) × every embedding context of depth ≤ 3
+//!    (bare, array element first/last/only, dictionary value followed by another key, nested
+//!    array/dictionary; names additionally as dictionary KEY).
+//!  * `trees`: every object tree of depth ≤ 3 and width ≤ 2 (arrays and dictionaries of 0..2
+//!    children) over a reduced leaf alphabet with one or two members of every leaf class.
+//!  * `triples`: every 3-element array over a 14-leaf alphabet chosen around the parser's
+//!    `N G R` look-ahead (small/large integers, the name /R, references, …).
+//!  * `streams`: direct stream objects (dictionary menu × data menu incl. every single byte).
+//!  * `incremental`: the second serializer of the library (`writer/incremental_update.rs
+//!    write_object`), reached through the public `IncrementalTextNoteEditor::apply(Update)`:
+//!    a crafted base file whose annotation dictionary carries `/X <value>` for every leaf
+//!    (names and strings of every single byte) in five contexts; the value must survive.
+//! Every case of the first four sections is serialized by BOTH private serializers of
+//! `PdfWriter` (hook H3: direct writer and object-stream buffer), each output is parsed by
+//! the library's `PdfObject::parse` and by the reference parser `refpdf::syntax`.
+//! Oracle: parsed value == source value (strings: the UTF-8 bytes of the Rust `String`, which
+//! is what `Object::String` emits; reals: numerically equal to the source re-rounded with the
+//! writer's `{:.6}`; an integral real may come back as an integer — PDF numbers are
+//! interchangeable); the reference parser reports no syntax issue (the §7.3.5 "should use #xx
+//! outside '!'..'~'" recommendation is not an error); nothing is left over after the object
+//! (bare: end of input; direct serializer also with the writer's `\nendobj\n` suffix).
+use oxidize_pdf::objects::{Dictionary, Object, ObjectId};
+use oxidize_pdf::parser::lexer::{Lexer, Token};
+use oxidize_pdf::parser::objects::PdfObject;
+use oxidize_pdf::writer::PdfWriter;
+use refpdf::syntax::{self, Obj, Parser};
+use serde_json::json;
+use std::io::Cursor;
+use vx::{Ctx, Explore, Report};
+
+pub const BUILT: bool = true;
+
+// ------------------------------------------------------------------ source values
+
+#[derive(Clone, Debug, Hash, PartialEq)]
+enum Src {
+    Null,
+    Bool(bool),
+    Int(i64),
+    /// f64 bits (so the type can be hashed)
+    Real(u64),
+    Str(String),
+    Name(String),
+    Bytes(Vec<u8>),
+    Ref(u32, u16),
+    Arr(Vec<Src>),
+    Dict(Vec<(String, Src)>),
+    Stream(Vec<(String, Src)>, Vec<u8>),
+}
+
+fn real(v: f64) -> Src {
+    Src::Real(v.to_bits())
+}
+fn name(s: &str) -> Src {
+    Src::Name(s.to_string())
+}
+fn st(s: &str) -> Src {
+    Src::Str(s.to_string())
+}
+
+/// The writer's stated precision: `{:.6}`; the expected value is the source re-rounded the same way.
+fn reround(v: f64) -> f64 {
+    format!("{v:.6}").parse::<f64>().unwrap_or(f64::NAN)
+}
+
+impl Src {
+    fn to_object(&self) -> Object {
+        match self {
+            Src::Null => Object::Null,
+            Src::Bool(b) => Object::Boolean(*b),
+            Src::Int(i) => Object::Integer(*i),
+            Src::Real(b) => Object::Real(f64::from_bits(*b)),
+            Src::Str(s) => Object::String(s.clone()),
+            Src::Name(n) => Object::Name(n.clone()),
+            Src::Bytes(b) => Object::ByteString(b.clone()),
+            Src::Ref(n, g) => Object::Reference(ObjectId::new(*n, *g)),
+            Src::Arr(a) => Object::Array(a.iter().map(|x| x.to_object()).collect()),
+            Src::Dict(d) => Object::Dictionary(mk_dict(d)),
+            Src::Stream(d, data) => Object::Stream(mk_dict(d), data.clone()),
+        }
+    }
+    /// The value an independent reader must see.
+    fn expected(&self) -> Obj {
+        match self {
+            Src::Null => Obj::Null,
+            Src::Bool(b) => Obj::Bool(*b),
+            Src::Int(i) => Obj::Int(*i),
+            Src::Real(b) => Obj::Real(reround(f64::from_bits(*b))),
+            Src::Str(s) => Obj::Str(s.as_bytes().to_vec()),
+            Src::Name(n) => Obj::Name(n.as_bytes().to_vec()),
+            Src::Bytes(b) => Obj::Str(b.clone()),
+            Src::Ref(n, g) => Obj::Ref(*n, *g),
+            Src::Arr(a) => Obj::Array(a.iter().map(|x| x.expected()).collect()),
+            Src::Dict(d) => Obj::Dict(syntax::Dict(d.iter().map(|(k, v)| (k.as_bytes().to_vec(), v.expected())).collect())),
+            Src::Stream(d, data) => {
+                let mut dd = syntax::Dict(d.iter().filter(|(k, _)| k != "Length").map(|(k, v)| (k.as_bytes().to_vec(), v.expected())).collect());
+                dd.0.push((b"Length".to_vec(), Obj::Int(data.len() as i64)));
+                Obj::Stream(Box::new(syntax::StreamObj { dict: dd, data: data.clone() }))
+            }
+        }
+    }
+    fn describe(&self) -> String {
+        format!("{:?}", self.expected())
+    }
+}
+
+fn mk_dict(d: &[(String, Src)]) -> Dictionary {
+    let mut out = Dictionary::new();
+    for (k, v) in d {
+        out.set(k.clone(), v.to_object());
+    }
+    out
+}
+
+// ------------------------------------------------------------------ leaf catalogue
+
+const STR_PAIR: [char; 12] = ['(', ')', '\\', '\r', '\n', '\t', '%', '/', '<', '>', 'A', 'é'];
+const NAME_PAIR: [char; 15] = ['A', ' ', '#', '/', '(', ')', '<', '>', '[', ']', '{', '}', '%', 'é', '\0'];
+
+fn leaves() -> Vec<Src> {
+    let mut v = vec![Src::Null, Src::Bool(true), Src::Bool(false)];
+    for i in [0i64, 1, -1, i32::MAX as i64, i32::MIN as i64, i64::MAX, i64::MIN, 65535, 65536, 9_999_999, 10_000_000] {
+        v.push(Src::Int(i));
+    }
+    for r in [0.0f64, -0.0, 0.5, -1.5, 1e-7, 123456.789, 1e15, 3.4e38, -1e-10, 0.1234567, -0.0000005, 9.3e18, -9.3e18, 9.2e18] {
+        v.push(real(r));
+    }
+    v.push(st(""));
+    for cp in 0u32..=0xFF {
+        v.push(Src::Str(char::from_u32(cp).unwrap().to_string()));
+    }
+    for a in STR_PAIR {
+        for b in STR_PAIR {
+            v.push(Src::Str([a, b].iter().collect()));
+        }
+    }
+    v.push(name(""));
+    v.push(name("R"));
+    v.push(name("A1.b-c_d"));
+    for cp in (0u32..=0xFF).chain([0x20AC]) {
+        v.push(Src::Name(char::from_u32(cp).unwrap().to_string()));
+    }
+    for a in NAME_PAIR {
+        for b in NAME_PAIR {
+            v.push(Src::Name([a, b].iter().collect()));
+        }
+    }
+    v.push(Src::Bytes(vec![]));
+    for b in 0u16..=0xFF {
+        v.push(Src::Bytes(vec![b as u8]));
+    }
+    v.push(Src::Bytes(vec![0x00, 0xFF]));
+    v.push(Src::Bytes(vec![0x12, 0x34, 0xAB]));
+    for (n, g) in [(1u32, 0u16), (0, 0), (8_388_607, 65535), (9_999_999, 0), (10_000_000, 0), (u32::MAX, 65535)] {
+        v.push(Src::Ref(n, g));
+    }
+    v
+}
+
+/// Embedding contexts (depth ≤ 3). `k` ≥ 12 only for names (the name is the dictionary KEY).
+fn n_contexts(x: &Src) -> usize {
+    if matches!(x, Src::Name(_)) { 15 } else { 12 }
+}
+fn wrap(k: usize, x: Src) -> Src {
+    let key = match &x {
+        Src::Name(n) => n.clone(),
+        _ => String::new(),
+    };
+    let d = |e: Vec<(&str, Src)>| Src::Dict(e.into_iter().map(|(k, v)| (k.to_string(), v)).collect());
+    match k {
+        0 => x,
+        1 => Src::Arr(vec![x]),
+        2 => Src::Arr(vec![x, Src::Int(7)]),
+        3 => Src::Arr(vec![Src::Int(7), x]),
+        4 => Src::Arr(vec![x, name("Z")]),
+        5 => Src::Arr(vec![st("s"), x]),
+        6 => d(vec![("K", x)]),
+        7 => d(vec![("A", x), ("B", Src::Int(7))]),
+        8 => Src::Arr(vec![Src::Arr(vec![x])]),
+        9 => Src::Arr(vec![d(vec![("K", x)])]),
+        10 => d(vec![("K", Src::Arr(vec![x]))]),
+        11 => d(vec![("K", d(vec![("L", x)]))]),
+        12 => Src::Dict(vec![(key, Src::Int(7))]),
+        13 => Src::Dict(vec![(key, Src::Arr(vec![Src::Int(7)])), ("zz".to_string(), name("Z"))]),
+        _ => Src::Arr(vec![Src::Dict(vec![(key, st("s"))])]),
+    }
+}
+
+// ------------------------------------------------------------------ the two readers
+
+fn lib_parse(bytes: &[u8], want_endobj: bool) -> Result<(PdfObject, bool, String), String> {
+    let r = vx::guard(|| -> Result<(PdfObject, bool, String), String> {
+        let mut lx = Lexer::new(Cursor::new(bytes));
+        let o = PdfObject::parse(&mut lx).map_err(|e| format!("{e:?}"))?;
+        let nt = lx.next_token();
+        let clean = match (&nt, want_endobj) {
+            (Ok(Token::EndObj), true) => matches!(lx.next_token(), Ok(Token::Eof)),
+            (Ok(Token::Eof), false) => true,
+            _ => false,
+        };
+        Ok((o, clean, format!("{nt:?}")))
+    });
+    match r {
+        Ok(x) => x,
+        Err(p) => Err(format!("PANIC {p}")),
+    }
+}
+
+fn ref_parse(bytes: &[u8], want_endobj: bool) -> Result<(Obj, Vec<String>), String> {
+    let mut p = Parser::new(bytes, 0);
+    let o = p.parse_object().map_err(|e| e.to_string())?;
+    let o = match o {
+        Obj::Dict(d) => p.maybe_stream(d, &|l| l.as_int()).map_err(|e| e.to_string())?,
+        o => o,
+    };
+    p.skip_ws();
+    if want_endobj {
+        if !p.keyword(b"endobj") {
+            return Err(format!("object not followed by 'endobj' at byte {}", p.pos));
+        }
+        p.skip_ws();
+    }
+    if !p.at_end() {
+        return Err(format!("trailing data after the object at byte {}", p.pos));
+    }
+    // ISO 32000-1 §7.3.5: writing regular characters outside '!'..'~' with #xx is a
+    // recommendation ("should"), not a requirement — not a syntax issue.
+    let issues = p.issues.into_iter().filter(|i| !i.starts_with("name contains raw byte")).collect();
+    Ok((o, issues))
+}
+
+/// expected vs reference-parser value; an expected Real may come back as Int or Real.
+fn ref_eq(exp: &Obj, got: &Obj) -> bool {
+    match (exp, got) {
+        (Obj::Real(e), Obj::Int(i)) => (*i as f64) == *e,
+        (Obj::Real(e), Obj::Real(r)) => r == e,
+        (Obj::Array(a), Obj::Array(b)) => a.len() == b.len() && a.iter().zip(b).all(|(x, y)| ref_eq(x, y)),
+        (Obj::Dict(a), Obj::Dict(b)) => dict_eq(a, b),
+        (Obj::Stream(a), Obj::Stream(b)) => dict_eq(&a.dict, &b.dict) && a.data == b.data,
+        _ => exp == got,
+    }
+}
+fn dict_eq(a: &syntax::Dict, b: &syntax::Dict) -> bool {
+    a.len() == b.len() && !b.has_duplicates() && a.iter().all(|(k, v)| b.get_b(k).map(|o| ref_eq(v, o)).unwrap_or(false))
+}
+
+/// §7.3.4.2: an unescaped end-of-line marker inside a literal string is read as LF.
+fn eol_normalised(o: &Obj) -> Obj {
+    match o {
+        Obj::Str(s) => {
+            let mut out = Vec::with_capacity(s.len());
+            let mut i = 0;
+            while i < s.len() {
+                if s[i] == b'\r' {
+                    out.push(b'\n');
+                    if s.get(i + 1) == Some(&b'\n') {
+                        i += 1;
+                    }
+                } else {
+                    out.push(s[i]);
+                }
+                i += 1;
+            }
+            Obj::Str(out)
+        }
+        Obj::Array(a) => Obj::Array(a.iter().map(eol_normalised).collect()),
+        Obj::Dict(d) => Obj::Dict(syntax::Dict(d.iter().map(|(k, v)| (k.clone(), eol_normalised(v))).collect())),
+        other => other.clone(),
+    }
+}
+
+fn latin1_of_utf8(s: &str) -> String {
+    s.bytes().map(|b| b as char).collect()
+}
+
+#[derive(Default)]
+struct LibCmp {
+    mism: Vec<String>,
+    /// names whose only difference is "UTF-8 bytes shown as Latin-1 characters"
+    mojibake: usize,
+    got_refs: usize,
+}
+
+fn lib_cmp(src: &Src, got: &PdfObject, path: &str, st: &mut LibCmp) {
+    let bad = |st: &mut LibCmp, what: String| {
+        if st.mism.len() < 4 {
+            st.mism.push(format!("{path}: {what}"));
+        } else {
+            st.mism.push(String::new());
+        }
+    };
+    match (src, got) {
+        (Src::Null, PdfObject::Null) => {}
+        (Src::Bool(a), PdfObject::Boolean(b)) if a == b => {}
+        (Src::Int(a), PdfObject::Integer(b)) if a == b => {}
+        (Src::Real(bits), PdfObject::Integer(i)) if (*i as f64) == reround(f64::from_bits(*bits)) => {}
+        (Src::Real(bits), PdfObject::Real(r)) if *r == reround(f64::from_bits(*bits)) => {}
+        (Src::Str(s), PdfObject::String(g)) if g.as_bytes() == s.as_bytes() => {}
+        (Src::Bytes(s), PdfObject::String(g)) if g.as_bytes() == s.as_slice() => {}
+        (Src::Name(n), PdfObject::Name(g)) => {
+            if g.as_str() == n {
+            } else if !n.is_ascii() && g.as_str() == latin1_of_utf8(n) {
+                st.mojibake += 1;
+            } else {
+                bad(st, format!("name {:?} read as {:?}", n, g.as_str()));
+            }
+        }
+        (Src::Ref(n, g), PdfObject::Reference(a, b)) if n == a && g == b => {}
+        (Src::Arr(a), PdfObject::Array(b)) => {
+            if a.len() != b.len() {
+                bad(st, format!("array of {} read as array of {}", a.len(), b.len()));
+                st.got_refs += b.0.iter().filter(|o| matches!(o, PdfObject::Reference(..))).count();
+            } else {
+                for (i, (x, y)) in a.iter().zip(b.0.iter()).enumerate() {
+                    lib_cmp(x, y, &format!("{path}[{i}]"), st);
+                }
+            }
+        }
+        (Src::Dict(d), PdfObject::Dictionary(g)) => lib_cmp_dict(d, None, g, path, st),
+        (Src::Stream(d, data), PdfObject::Stream(s)) => {
+            lib_cmp_dict(d, Some(data.len()), &s.dict, path, st);
+            if &s.data != data {
+                bad(st, format!("stream data of {} bytes read as {} bytes", data.len(), s.data.len()));
+            }
+        }
+        (s, g) => bad(st, format!("{} read as {}", s.describe(), vx::one_line(&format!("{g:?}"), 160))),
+    }
+}
+
+fn lib_cmp_dict(d: &[(String, Src)], stream_len: Option<usize>, g: &oxidize_pdf::parser::objects::PdfDictionary, path: &str, st: &mut LibCmp) {
+    let mut want: Vec<(String, Src)> = d.iter().filter(|(k, _)| stream_len.is_none() || k != "Length").cloned().collect();
+    if let Some(l) = stream_len {
+        want.push(("Length".to_string(), Src::Int(l as i64)));
+    }
+    if want.len() != g.0.len() {
+        st.mism.push(format!("{path}: dictionary of {} entries read with {} entries", want.len(), g.0.len()));
+        return;
+    }
+    for (k, v) in &want {
+        if let Some(gv) = g.get(k) {
+            lib_cmp(v, gv, &format!("{path}/{k}"), st);
+        } else if let Some(gv) = (!k.is_ascii()).then(|| g.get(&latin1_of_utf8(k))).flatten() {
+            st.mojibake += 1;
+            lib_cmp(v, gv, &format!("{path}/{k}"), st);
+        } else {
+            st.mism.push(format!("{path}: key {k:?} missing (keys read: {:?})", g.0.keys().map(|k| k.as_str().to_string()).collect::<Vec<_>>()));
+        }
+    }
+}
+
+// ------------------------------------------------------------------ known-defect signatures
+
+fn must_escape(b: u8) -> bool {
+    // §7.3.5: white space and delimiters are not regular characters and SHALL be written as
+    // #xx; '#' SHALL be written as #23.
+    syntax::is_ws(b) || syntax::is_delim(b) || b == b'#'
+}
+
+#[derive(Default)]
+struct Suspects {
+    /// first name (value or key) holding a byte that must be escaped, and whether it is a key
+    must_escape: Option<(String, bool)>,
+    non_ascii_name: bool,
+    cr_string: bool,
+    big_real: Option<f64>,
+    big_ref: Option<(u32, u16)>,
+    r_after_ints: bool,
+}
+
+fn scan(src: &Src, s: &mut Suspects) {
+    let see_name = |s: &mut Suspects, n: &str, is_key: bool| {
+        if n.bytes().any(must_escape) && s.must_escape.is_none() {
+            s.must_escape = Some((n.to_string(), is_key));
+        }
+        if !n.is_ascii() {
+            s.non_ascii_name = true;
+        }
+    };
+    match src {
+        Src::Name(n) => see_name(s, n, false),
+        Src::Str(x) if x.contains('\r') => s.cr_string = true,
+        Src::Real(b) => {
+            let v = reround(f64::from_bits(*b));
+            if v.abs() >= 9.223372036854775807e18 {
+                s.big_real = Some(f64::from_bits(*b));
+            }
+        }
+        Src::Ref(n, g) if *n > 9_999_999 => s.big_ref = Some((*n, *g)),
+        Src::Arr(a) => {
+            for w in a.windows(3) {
+                if let (Src::Int(x), Src::Int(y), Src::Name(r)) = (&w[0], &w[1], &w[2]) {
+                    if (0..=9_999_999).contains(x) && (0..=65535).contains(y) && r == "R" {
+                        s.r_after_ints = true;
+                    }
+                }
+            }
+            a.iter().for_each(|x| scan(x, s));
+        }
+        Src::Dict(d) | Src::Stream(d, _) => {
+            for (k, v) in d {
+                see_name(s, k, true);
+                scan(v, s);
+            }
+        }
+        _ => {}
+    }
+}
+
+fn serialize(src: &Src) -> Result<(Vec<u8>, Vec<u8>), String> {
+    let obj = src.to_object();
+    match vx::guard(|| PdfWriter::new_with_writer(Vec::<u8>::new()).verif_serialize_object(&obj)) {
+        Ok(Ok(x)) => Ok(x),
+        Ok(Err(e)) => Err(format!("error {e:?}")),
+        Err(p) => Err(format!("PANIC {p}")),
+    }
+}
+
+fn contains(h: &[u8], n: &[u8]) -> bool {
+    !n.is_empty() && h.len() >= n.len() && h.windows(n.len()).any(|w| w == n)
+}
+
+/// The exact known-defective behaviour: the name's bytes are copied to the output after '/'.
+fn sig_raw_name(n: &str, is_key: bool) -> bool {
+    let probe = if is_key { Src::Dict(vec![(n.to_string(), Src::Null)]) } else { Src::Name(n.to_string()) };
+    let mut raw = vec![b'/'];
+    raw.extend_from_slice(n.as_bytes());
+    match serialize(&probe) {
+        Ok((d, b)) => {
+            if is_key {
+                let mut k = raw.clone();
+                k.extend_from_slice(b" null");
+                contains(&d, &k) && contains(&b, &k)
+            } else {
+                d == raw && b == raw
+            }
+        }
+        Err(_) => false,
+    }
+}
+/// An integral real beyond the i64 range is written as a bare digit string.
+fn sig_big_real(v: f64) -> bool {
+    match serialize(&real(v)) {
+        Ok((d, _)) => !d.contains(&b'.') && d.iter().all(|c| c.is_ascii_digit() || *c == b'-') && matches!(lib_parse(&d, false), Err(m) if m.contains("Invalid integer")),
+        Err(_) => false,
+    }
+}
+/// `N G R` with N > 9999999 is read as the integer N, leaving `G R` behind.
+fn sig_big_ref(n: u32, g: u16) -> bool {
+    match serialize(&Src::Ref(n, g)) {
+        Ok((d, _)) => d == format!("{n} {g} R").as_bytes() && matches!(lib_parse(&d, false), Ok((PdfObject::Integer(i), false, _)) if i == n as i64),
+        Err(_) => false,
+    }
+}
+
+// ------------------------------------------------------------------ one case
+
+struct Verdict {
+    fails: Vec<(String, String)>,
+    outcome: u64,
+    direct: Vec<u8>,
+}
+
+fn evaluate(section: &str, src: &Src) -> Verdict {
+    let mut fails: Vec<(String, String)> = Vec::new();
+    let (direct, buffered) = match serialize(src) {
+        Ok(x) => x,
+        Err(e) => {
+            let key = if e.starts_with("PANIC") { "C09/serializer-panic" } else { "C09/serializer-error" };
+            return Verdict { fails: vec![(key.to_string(), format!("{}: {e}", src.describe()))], outcome: vx::h64(&e), direct: vec![] };
+        }
+    };
+    let is_stream = matches!(src, Src::Stream(..));
+    let exp = src.expected();
+    let exp_norm = eol_normalised(&exp);
+    let mut sus = Suspects::default();
+    scan(src, &mut sus);
+
+    let mut with_endobj = direct.clone();
+    with_endobj.extend_from_slice(b"\nendobj\n");
+    let mut variants: Vec<(&str, &[u8], bool)> = vec![("direct", &direct, false), ("direct", &with_endobj, true)];
+    if !is_stream {
+        variants.push(("objstm", &buffered, false));
+    }
+    // (serializer, observation kind, detail)
+    let mut obs: Vec<(&str, &'static str, String)> = Vec::new();
+    for (label, bytes, endobj) in &variants {
+        let shown = vx::show_bytes(bytes, 120);
+        match lib_parse(bytes, *endobj) {
+            Err(m) => obs.push((label, "library-parse-error", format!("bytes={shown} error={}", vx::one_line(&m, 200)))),
+            Ok((o, clean, next)) => {
+                let mut st = LibCmp::default();
+                lib_cmp(src, &o, "$", &mut st);
+                if !st.mism.is_empty() {
+                    let refs_src = count_refs(src);
+                    let kind = if st.got_refs > 0 || count_lib_refs(&o) > refs_src { "library-value-differs+ref" } else { "library-value-differs" };
+                    obs.push((label, kind, format!("bytes={shown} {}", st.mism.iter().filter(|m| !m.is_empty()).cloned().collect::<Vec<_>>().join("; "))));
+                } else if st.mojibake > 0 {
+                    obs.push((label, "library-name-latin1", format!("bytes={shown} read={}", vx::one_line(&format!("{o:?}"), 200))));
+                } else if !clean {
+                    obs.push((label, "library-trailing-data", format!("bytes={shown} next token after the object: {next}")));
+                }
+            }
+        }
+        match ref_parse(bytes, *endobj) {
+            Err(m) => obs.push((label, "reference-parse-error", format!("bytes={shown} error={m}"))),
+            Ok((o, issues)) => {
+                if !ref_eq(&exp, &o) {
+                    if sus.cr_string && ref_eq(&exp_norm, &o) {
+                        obs.push((label, "reference-cr-normalised", format!("bytes={shown} read={o:?}")));
+                    } else {
+                        obs.push((label, "reference-value-differs", format!("bytes={shown} want={exp:?} read={o:?}")));
+                    }
+                } else if !issues.is_empty() {
+                    obs.push((label, "reference-syntax-issue", format!("bytes={shown} issues={issues:?}")));
+                }
+            }
+        }
+    }
+    let outcome = vx::h64(&obs.iter().map(|(l, k, _)| (*l, *k)).collect::<Vec<_>>());
+    if obs.is_empty() {
+        return Verdict { fails, outcome, direct };
+    }
+    let what = src.describe();
+    // 1. a name byte that SHALL be #xx-escaped was copied raw: it can break anything around it
+    if let Some((n, is_key)) = &sus.must_escape {
+        if sig_raw_name(n, *is_key) {
+            let (l, k, d) = &obs[0];
+            fails.push(("C09/name-byte-needs-#xx-escape".to_string(), format!("object={what} first symptom: {l} {k} {d}")));
+            return Verdict { fails, outcome, direct };
+        }
+    }
+    let big_real = sus.big_real.map(sig_big_real).unwrap_or(false);
+    let big_ref = sus.big_ref.map(|(n, g)| sig_big_ref(n, g)).unwrap_or(false);
+    for (label, kind, detail) in &obs {
+        let key = match *kind {
+            "library-name-latin1" if sus.non_ascii_name => "C09/non-ascii-name-read-back-as-latin1".to_string(),
+            "reference-cr-normalised" => "C09/raw-CR-in-literal-string".to_string(),
+            "library-parse-error" if big_real && detail.contains("Invalid integer") => "C09/integral-real-beyond-i64-written-without-decimal-point".to_string(),
+            "library-trailing-data" | "library-value-differs" | "library-parse-error" if big_ref => "C09/reference-object-number-above-9999999-read-as-integer".to_string(),
+            "library-value-differs+ref" if sus.r_after_ints => "C09/name-R-after-two-integers-read-as-reference".to_string(),
+            "library-value-differs+ref" => format!("C09/{section}-{label}-library-value-differs"),
+            other => format!("C09/{section}-{label}-{other}"),
+        };
+        if !fails.iter().any(|(k, _)| *k == key) {
+            fails.push((key, format!("object={what} {detail}")));
+        }
+    }
+    Verdict { fails, outcome, direct }
+}
+
+fn count_refs(s: &Src) -> usize {
+    match s {
+        Src::Ref(..) => 1,
+        Src::Arr(a) => a.iter().map(count_refs).sum(),
+        Src::Dict(d) | Src::Stream(d, _) => d.iter().map(|(_, v)| count_refs(v)).sum(),
+        _ => 0,
+    }
+}
+fn count_lib_refs(o: &PdfObject) -> usize {
+    match o {
+        PdfObject::Reference(..) => 1,
+        PdfObject::Array(a) => a.0.iter().map(count_lib_refs).sum(),
+        PdfObject::Dictionary(d) => d.0.values().map(count_lib_refs).sum(),
+        PdfObject::Stream(s) => s.dict.0.values().map(count_lib_refs).sum(),
+        _ => 0,
+    }
+}
+
+fn run_case(c: &mut Ctx, section: &str, src: &Src) {
+    c.input(vx::h64(src));
+    let trivial = matches!(src, Src::Null | Src::Bool(_)) || matches!(src, Src::Int(i) if (-1..=1).contains(i));
+    if !trivial {
+        c.nontrivial();
+    }
+    let v = evaluate(section, src);
+    c.outcome(v.outcome);
+    for (k, d) in v.fails {
+        c.fail(k, d);
+    }
+    if c.want_sample() {
+        c.sample(json!({"object": src.describe(), "direct_serializer_output": vx::show_bytes(&v.direct, 100)}));
+    }
+}
+
+// ------------------------------------------------------------------ sections
+
+fn tree_leaves(thorough: bool) -> Vec<Src> {
+    let mut v = vec![
+        Src::Null,
+        Src::Bool(true),
+        Src::Int(0),
+        Src::Int(i64::MIN),
+        real(0.5),
+        st("a(b\\)"),
+        name("A"),
+        Src::Bytes(vec![0xAB, 0x01]),
+        Src::Ref(3, 0),
+    ];
+    if thorough {
+        v.extend([
+            Src::Bool(false), Src::Int(-1), real(-1.5), st(""), name("B.c-d"), real(123456.789), Src::Int(i64::MAX),
+            st("%/<>[]{}"), st("\t\n é"), name("+-.!~"), Src::Int(10_000_000), Src::Int(65535), Src::Ref(9_999_999, 65535), Src::Bytes(vec![]), real(1e15), real(-0.0),
+        ]);
+    }
+    v
+}
+
+fn gen_tree(c: &mut Ctx, depth: usize, leaves: &[Src]) -> Src {
+    let kind = if depth > 1 { c.choose("node", 3) } else { 0 };
+    match kind {
+        0 => c.pick_from("leaf", leaves).clone(),
+        1 => {
+            let n = c.choose("array-len", 3);
+            Src::Arr((0..n).map(|_| gen_tree(c, depth - 1, leaves)).collect())
+        }
+        _ => {
+            let n = c.choose("dict-len", 3);
+            Src::Dict((0..n).map(|i| (["K1", "K2"][i].to_string(), gen_tree(c, depth - 1, leaves))).collect())
+        }
+    }
+}
+
+pub fn run(rep: &mut Report) {
+    let thorough = rep.tier.is_thorough();
+    rep.rule("case = one source object (leaf × embedding context, tree, triple or stream), serialized by both serializers and \
+              read by both readers; non-trivial = anything but a bare null/boolean/0/±1; distinct = distinct source object hash");
+    rep.assume("refpdf::syntax is the independent reader (ISO 32000-1 §7.3, validated by its unit tests against the ISO examples)");
+    rep.assume("an integral real may be read back as an integer (PDF numbers are interchangeable); reals compare after re-rounding the source with the writer's {:.6}");
+    rep.assume("raw regular bytes outside '!'..'~' in a name are legal syntax (§7.3.5 'should'), only white space, delimiters and '#' SHALL be escaped");
+
+    let lv = leaves();
+    rep.note("leaf_catalogue_size", json!(lv.len()));
+    rep.explore("leaf-in-context", Explore::full(), |c: &mut Ctx| {
+        let leaf = c.pick_from("leaf", &lv).clone();
+        let k = c.choose("context", n_contexts(&leaf));
+        let src = wrap(k, leaf);
+        run_case(c, "leaf", &src);
+    });
+
+    let tl = tree_leaves(thorough);
+    rep.explore("trees", Explore::full(), |c: &mut Ctx| {
+        let src = gen_tree(c, 3, &tl);
+        run_case(c, "tree", &src);
+    });
+
+    let tri: Vec<Src> = vec![
+        Src::Int(0), Src::Int(1), Src::Int(65535), Src::Int(65536), Src::Int(9_999_999), Src::Int(10_000_000), Src::Int(-1),
+        name("R"), name("A"), Src::Ref(1, 0), real(0.5), st("R"), Src::Null, Src::Bool(true),
+    ];
+    rep.explore("triples", Explore::full(), |c: &mut Ctx| {
+        let a = c.pick_from("a", &tri).clone();
+        let b = c.pick_from("b", &tri).clone();
+        let d = c.pick_from("c", &tri).clone();
+        let arr = Src::Arr(vec![a, b, d]);
+        let src = match c.choose("context", 3) {
+            0 => arr,
+            1 => Src::Dict(vec![("K".to_string(), arr)]),
+            _ => Src::Arr(vec![arr, Src::Int(0)]),
+        };
+        run_case(c, "triple", &src);
+    });
+
+    // direct streams
+    let mut datas: Vec<Vec<u8>> = vec![
+        vec![], b"abc".to_vec(), b"abc\n".to_vec(), b"\r\n".to_vec(), b"endstream".to_vec(),
+        b"x\nendstream\nendobj\n".to_vec(), b"stream\r\n".to_vec(), (0u16..=255).map(|b| b as u8).collect(), b" ".to_vec(), b"q\n".repeat(300),
+    ];
+    for b in 0u16..=255 {
+        datas.push(vec![b as u8]);
+    }
+    if thorough {
+        for a in [b'\r', b'\n', b'e', b' ', 0u8, b'>'] {
+            for b in [b'\r', b'\n', b'e', b' ', 0u8, b'>'] {
+                datas.push(vec![b'x', a, b]);
+                datas.push(vec![a, b]);
+            }
+        }
+    }
+    let dicts: Vec<Vec<(String, Src)>> = vec![
+        vec![],
+        vec![("Type".to_string(), name("XObject"))],
+        vec![("Length".to_string(), Src::Int(999))],
+        vec![("K".to_string(), st("a)b(\\")), ("Z".to_string(), Src::Arr(vec![Src::Int(1), Src::Ref(2, 0)]))],
+        vec![("Filter".to_string(), Src::Arr(vec![]))],
+    ];
+    rep.explore("streams", Explore::full(), |c: &mut Ctx| {
+        let d = c.pick_from("dict", &dicts).clone();
+        let data = c.pick_from("data", &datas).clone();
+        run_case(c, "stream", &Src::Stream(d, data));
+    });
+
+    incremental::run(rep, thorough);
+}
+
+// ------------------------------------------------------------------ the incremental writer's serializer
+
+/// `writer/incremental_update.rs write_object` is private; the public way in is an
+/// incremental text-note update, which re-emits the whole annotation dictionary
+/// ("preserving its other keys"). The base file is crafted with the reference builder, so
+/// the source value here is a parsed value: what both readers saw BEFORE must be what they
+/// see AFTER.
+mod incremental {
+    use super::*;
+    use oxidize_pdf::geometry::Point;
+    use oxidize_pdf::parser::PdfReader;
+    use oxidize_pdf::writer::{IncrementalTextNoteEditor, TextNoteId, TextNoteMutation};
+    use refpdf::builder::{simple_doc_objects, FileBuilder, Revision, XrefForm};
+    use refpdf::file::PdfFile;
+
+    fn b_leaves(thorough: bool) -> Vec<Obj> {
+        let mut v = vec![Obj::Null, Obj::Bool(true), Obj::Bool(false)];
+        for i in [0i64, 1, -1, i64::MAX, i64::MIN, 10_000_000] {
+            v.push(Obj::Int(i));
+        }
+        for r in [0.5f64, -1.5, 123456.789, 0.000001, 1e15] {
+            v.push(Obj::Real(r));
+        }
+        v.push(Obj::Str(vec![]));
+        for b in 0u16..=255 {
+            v.push(Obj::Str(vec![b as u8]));
+        }
+        for a in [b'(', b')', b'\\', b'\r', b'\n', 0xE9] {
+            for b in [b'(', b')', b'\\', b'\r', b'\n', 0xE9] {
+                v.push(Obj::Str(vec![a, b]));
+            }
+        }
+        // names: every byte but NUL (a name cannot contain NUL, §7.3.5)
+        for b in 1u16..=255 {
+            v.push(Obj::Name(vec![b as u8]));
+        }
+        v.push(Obj::Name(vec![]));
+        let pair: &[u8] = if thorough { b"A #/()<>[]{}%\xE9\xC3\xA9" } else { b"A #/(%\xE9" };
+        for a in pair {
+            for b in pair {
+                v.push(Obj::Name(vec![*a, *b]));
+            }
+        }
+        v.push(Obj::Name("é".as_bytes().to_vec()));
+        v.push(Obj::Name("€".as_bytes().to_vec()));
+        v.push(Obj::Ref(1, 0));
+        v.push(Obj::Ref(8_388_607, 65535));
+        v
+    }
+
+    fn b_wrap(k: usize, x: Obj) -> Obj {
+        let key = match &x {
+            Obj::Name(n) if !n.is_empty() => n.clone(),
+            _ => b"K".to_vec(),
+        };
+        match k {
+            0 => x,
+            1 => Obj::Array(vec![x]),
+            2 => Obj::Array(vec![x, Obj::Int(7)]),
+            3 => Obj::dict(vec![("A", x), ("B", Obj::Int(7))]),
+            4 => Obj::Array(vec![Obj::dict(vec![("K", Obj::Array(vec![x]))])]),
+            _ => Obj::Dict(syntax::Dict(vec![(key, Obj::Int(7))])),
+        }
+    }
+
+    fn base_file(x: &Obj) -> Vec<u8> {
+        let mut objs = simple_doc_objects(1, &|_| b"BT ET".to_vec());
+        // page object 3: add /Annots
+        for (n, o) in objs.iter_mut() {
+            if *n == 3 {
+                if let Obj::Dict(d) = o {
+                    d.set("Annots", Obj::Array(vec![Obj::Ref(10, 0)]));
+                }
+            }
+        }
+        objs.push((
+            10,
+            Obj::dict(vec![
+                ("Type", Obj::name("Annot")),
+                ("Subtype", Obj::name("Text")),
+                ("Rect", Obj::Array(vec![Obj::Int(10), Obj::Int(20), Obj::Int(30), Obj::Int(40)])),
+                ("Contents", Obj::str(b"old")),
+                ("X", x.clone()),
+            ]),
+        ));
+        let mut r = Revision::new(XrefForm::Table);
+        for (n, o) in objs {
+            r.add(n, o);
+        }
+        let mut fb = FileBuilder::new(1);
+        fb.revisions.push(r);
+        fb.build().bytes
+    }
+
+    fn lib_x(bytes: &[u8]) -> Result<PdfObject, String> {
+        match vx::guard(|| -> Result<PdfObject, String> {
+            let mut r = PdfReader::new(Cursor::new(bytes)).map_err(|e| format!("{e:?}"))?;
+            let o = r.get_object(10, 0).map_err(|e| format!("{e:?}"))?;
+            let d = o.as_dict().ok_or("object 10 is not a dictionary")?;
+            d.get("X").cloned().ok_or_else(|| format!("no /X in {:?}", d.0.keys().collect::<Vec<_>>()))
+        }) {
+            Ok(r) => r,
+            Err(p) => Err(format!("PANIC {p}")),
+        }
+    }
+
+    fn ref_x(bytes: &[u8]) -> Result<Obj, String> {
+        let f = PdfFile::parse(bytes)?;
+        let (_, _, o, issues, _) = match f.xref.get(&10) {
+            Some(refpdf::file::XEntry::InUse { offset, .. }) => f.object_at(*offset)?,
+            other => return Err(format!("object 10 is {other:?}")),
+        };
+        let issues: Vec<String> = issues.into_iter().filter(|i| !i.starts_with("name contains raw byte")).collect();
+        if !issues.is_empty() {
+            return Err(format!("syntax issues in the rewritten annotation: {issues:?}"));
+        }
+        o.dict_get("X").cloned().ok_or_else(|| format!("no /X in {o:?}"))
+    }
+
+    /// the known defect: every byte ≥ 0x80 of a name comes back as the UTF-8 encoding of
+    /// the Latin-1 character with that code
+    fn reencoded(o: &Obj) -> Obj {
+        let f = |n: &Vec<u8>| -> Vec<u8> { n.iter().map(|&b| b as char).collect::<String>().into_bytes() };
+        match o {
+            Obj::Name(n) => Obj::Name(f(n)),
+            Obj::Array(a) => Obj::Array(a.iter().map(reencoded).collect()),
+            Obj::Dict(d) => Obj::Dict(syntax::Dict(d.iter().map(|(k, v)| (f(k), reencoded(v))).collect())),
+            other => other.clone(),
+        }
+    }
+    fn has_high_name_byte(o: &Obj) -> bool {
+        match o {
+            Obj::Name(n) => n.iter().any(|b| *b >= 0x80),
+            Obj::Array(a) => a.iter().any(has_high_name_byte),
+            Obj::Dict(d) => d.iter().any(|(k, v)| k.iter().any(|b| *b >= 0x80) || has_high_name_byte(v)),
+            _ => false,
+        }
+    }
+
+    pub fn run(rep: &mut Report, thorough: bool) {
+        let lv = b_leaves(thorough);
+        rep.explore("incremental", Explore::full(), |c: &mut Ctx| {
+            let leaf = c.pick_from("leaf", &lv).clone();
+            let nctx = if matches!(&leaf, Obj::Name(n) if !n.is_empty()) { 6 } else { 5 };
+            let x = b_wrap(c.choose("context", nctx), leaf);
+            c.input(vx::h64(&syntax::to_bytes(&x)));
+            c.nontrivial();
+            let base = base_file(&x);
+            // self-check of the crafted file: the reference reader must see exactly x
+            match ref_x(&base) {
+                Ok(o) if ref_eq(&x, &o) => {}
+                other => {
+                    c.fail("C09/incremental-harness-base-file-wrong", format!("x={x:?} reference reader of the base file: {other:?}"));
+                    return;
+                }
+            }
+            let lib_before = lib_x(&base);
+            let upd = vx::guard(|| {
+                IncrementalTextNoteEditor::new(&base).apply(&[TextNoteMutation::Update {
+                    id: TextNoteId::new(10, 0),
+                    position: Point::new(100.0, 110.0),
+                    contents: "n".to_string(),
+                }])
+            });
+            let out = match upd {
+                Ok(Ok(u)) => u.pdf_bytes,
+                Ok(Err(e)) => {
+                    // the library cannot read the base value at all: that is the reader half,
+                    // decided by the other sections; count it here under its own key
+                    c.outcome(1);
+                    c.fail("C09/incremental-update-refused", format!("x={x:?} error={e:?} library-read-of-base={:?}", lib_before.as_ref().map(|_| "ok")));
+                    return;
+                }
+                Err(p) => {
+                    c.fail("C09/incremental-update-panic", format!("x={x:?} {p}"));
+                    return;
+                }
+            };
+            let mut oh = 0u64;
+            match ref_x(&out) {
+                Ok(o) if ref_eq(&x, &o) => {}
+                Ok(o) => {
+                    oh |= 2;
+                    if has_high_name_byte(&x) && ref_eq(&reencoded(&x), &o) {
+                        c.fail("C09/incremental-rewrite-reencodes-name-bytes-above-7F-as-utf8", format!("before={x:?} after={o:?}"));
+                    } else {
+                        c.fail("C09/incremental-reference-value-differs", format!("before={x:?} after={o:?}"));
+                    }
+                }
+                Err(e) => {
+                    oh |= 4;
+                    c.fail("C09/incremental-reference-cannot-read-rewritten-object", format!("x={x:?} {e}"));
+                }
+            }
+            match (&lib_before, lib_x(&out)) {
+                (Ok(a), Ok(b)) if *a == b => {}
+                (Ok(a), Ok(b)) => {
+                    oh |= 8;
+                    if has_high_name_byte(&x) {
+                        c.fail("C09/incremental-rewrite-reencodes-name-bytes-above-7F-as-utf8", format!("library before={a:?} after={b:?}"));
+                    } else {
+                        c.fail("C09/incremental-library-value-differs", format!("x={x:?} before={a:?} after={b:?}"));
+                    }
+                }
+                (a, b) => {
+                    oh |= 16;
+                    c.fail("C09/incremental-library-cannot-read", format!("x={x:?} before={} after={}", a.as_ref().map(|_| "ok".to_string()).unwrap_or_else(|e| e.clone()), b.as_ref().map(|_| "ok".to_string()).unwrap_or_else(|e| e.clone())));
+                }
+            }
+            c.outcome(oh);
+            if c.want_sample() {
+                c.sample(json!({"X": format!("{x:?}"), "appended": vx::show_bytes(&out[base.len()..], 160)}));
+            }
+        });
+    }
+}
